@@ -1,3 +1,4 @@
+import MdVerif.Proofs.XdrLemmas
 import MdVerif.Model.Formats
 import MdVerif.Proofs.MicLemmas
 import MdVerif.Proofs.TextLemmas
@@ -296,3 +297,62 @@ theorem c01_counterexample_one_atom :
   decide +kernel
 
 end MdVerif.Txt
+
+/-! ## the bytes of a .trr file (Model/Xdr.lean) -/
+namespace MdVerif.Xdr
+
+/-- **the .trr layout round trip**: for every list of frames (any number of atoms, any payload words), the bytes `write_trr` emits are read
+back as exactly those frames by a reader that only follows the sizes announced in each header -/
+theorem c01_trr_roundtrip (fs : List Frame) (h : ∀ f ∈ fs, f.WF) : readTrr (writeTrr fs) = some fs := by
+  have hb : ∀ w ∈ fs.flatMap renderFrame, w < 4294967296 := by
+    intro w hw
+    obtain ⟨f, hf, hwf⟩ := List.mem_flatMap.mp hw
+    exact render_words_bound f (h f hf) w hwf
+  simp only [readTrr, writeTrr, toWords_bytesOfWords _ hb, Option.bind_some]
+  exact parseAll_render fs h _ (by have := flatMap_render_length fs; omega)
+
+
+/-- two different frame lists give different files: whatever differs (a transposed box, a shifted column) is in the bytes -/
+theorem c01_trr_injective (fs gs : List Frame) (hf : ∀ f ∈ fs, f.WF) (hg : ∀ f ∈ gs, f.WF) (h : writeTrr fs = writeTrr gs) : fs = gs := by
+  have a := c01_trr_roundtrip fs hf
+  have b := c01_trr_roundtrip gs hg
+  rw [h, b] at a
+  exact (Option.some.inj a).symm
+
+theorem bytesOfWords_length (ws : List Nat) : (bytesOfWords ws).length = 4 * ws.length := by
+  induction ws with
+  | nil => rfl
+  | cons w ws ih => simp only [bytesOfWords, List.flatMap_cons, List.length_append, be32, List.length_cons, List.length_nil] at ih ⊢; omega
+
+/-- size of a frame on disk: 84 header bytes, 36 for the box, 12 per atom -/
+theorem c01_trr_frame_bytes (f : Frame) : (bytesOfWords (renderFrame f)).length = 84 + 4 * f.box.length + 4 * f.x.length := by
+  rw [bytesOfWords_length]
+  simp [renderFrame, tagWords]
+  omega
+
+/-- every frame of one file has the same size, so frame `k` starts at byte `k · size` (what `seek` relies on) -/
+theorem c01_trr_offsets (fs : List Frame) (nb nx : Nat) (h : ∀ f ∈ fs, f.box.length = nb ∧ f.x.length = nx) :
+    (writeTrr fs).length = fs.length * (84 + 4 * nb + 4 * nx) := by
+  induction fs with
+  | nil => simp [writeTrr, bytesOfWords]
+  | cons f fs ih =>
+    have hf := h f (by simp)
+    have := ih (fun g hg => h g (by simp [hg]))
+    simp only [writeTrr, List.flatMap_cons, bytesOfWords, List.flatMap_append, List.length_append] at this ⊢
+    have e : (bytesOfWords (renderFrame f)).length = 84 + 4 * nb + 4 * nx := by rw [c01_trr_frame_bytes, hf.1, hf.2]
+    simp only [bytesOfWords] at e
+    rw [e, this, List.length_cons, Nat.add_mul, Nat.one_mul, Nat.add_comm]
+
+/-! single precision words (tests of the decoder on constants) -/
+example : f32ToRat 0x3F800000 = some 1 := by decide +kernel
+example : f32ToRat 0xBFC00000 = some (-3/2) := by decide +kernel
+example : f32ToRat 0x00000000 = some 0 := by decide +kernel
+example : f32ToRat 0x3DCCCCCD = some (13421773 / 134217728) := by decide +kernel      -- float32(0.1)
+example : f32ToRat 0x00000001 = some (1 / (2 : Rat) ^ 149) := by decide +kernel              -- the smallest subnormal
+example : f32ToRat 0x7F800000 = none := by decide +kernel                            -- +inf
+example : f32ToRat 0x4B000001 = some 8388609 := by decide +kernel                    -- 2^23 + 1
+
+/-- the transposed box is another file (the seeded change C01-trr-box-transposed-on-write-and-read) -/
+example : writeTrr [⟨1, 0, 0, 0, [1, 2, 3, 4, 5, 6, 7, 8, 9], [0, 0, 0]⟩] ≠ writeTrr [⟨1, 0, 0, 0, [1, 4, 7, 2, 5, 8, 3, 6, 9], [0, 0, 0]⟩] := by decide +kernel
+
+end MdVerif.Xdr
